@@ -12,6 +12,36 @@ static PROGRESS: AtomicU64 = AtomicU64::new(0);
 
 fn main() {
    let argv: Vec<String> = std::env::args().collect();
+   if argv.get(1).map(|s| s.as_str()) == Some("fuzz-stats") {
+      // vfrontend fuzz-stats DIR: every file of a corpus through the oracle
+      std::panic::set_hook(Box::new(|_| {}));
+      let (mut files, mut nt, mut failures) = (0u64, 0u64, vec![]);
+      let mut names: Vec<_> = std::fs::read_dir(&argv[2]).expect("dir").filter_map(|e| e.ok()).map(|e| e.path()).filter(|p| p.is_file()).collect();
+      names.sort();
+      for f in names {
+         files += 1;
+         match vfrontend::fuzz::entry(&std::fs::read(&f).expect("read")) {
+            Ok(true) => nt += 1,
+            Ok(false) => {},
+            Err(e) => failures.push(serde_json::json!({"file": f.to_string_lossy(), "failure": e})),
+         }
+      }
+      println!("{}", serde_json::json!({"files": files, "nontrivial": nt, "failures": failures}));
+      return;
+   }
+   if argv.get(1).map(|s| s.as_str()) == Some("fuzz-replay") {
+      // vfrontend fuzz-replay FILE: replays a saved fuzz input outside the fuzzer; exit 1 on failure
+      std::panic::set_hook(Box::new(|_| {}));
+      let data = std::fs::read(&argv[2]).expect("input file");
+      match vfrontend::fuzz::entry(&data) {
+         Ok(nt) => println!("fuzz-replay target=frontend ok nontrivial={nt}"),
+         Err(e) => {
+            println!("FAILURE {e}");
+            std::process::exit(1);
+         },
+      }
+      return;
+   }
    let cases: Vec<Case> = serde_json::from_str(&std::fs::read_to_string(&argv[1]).expect("cases file")).expect("cases json");
    std::panic::set_hook(Box::new(|_| {}));
    // non-termination watchdog (a self-referential macro must be rejected, not expanded forever)
